@@ -282,8 +282,13 @@ class C08(World):
         for r in range(swarm["n_req"]):
             if r and args.random() < swarm["p_populate"]:
                 # between two insertions the owner of the table fills a curve column (as the pipeline stages do) or works on a copy
-                if args.random() < 0.25:
+                x_ = args.random()
+                if x_ < 0.2:
                     steps.append(dict(op="copy"))
+                elif x_ < 0.4:
+                    steps.append(dict(op="shift", col=args.randrange(64), dh=float(args.choice([100.0, -50.0, 0.125]))))
+                elif x_ < 0.55:
+                    steps.append(dict(op="readonly"))
                 else:
                     steps.append(dict(op="populate", col=args.randrange(64), prefer_nan=args.random() < 0.7, via=args.choice(["loc", "iloc", "icol", "col", "update", "update_row", "data"]), vals=[round(args.uniform(-500, 1500), 3) for _ in range(7)]))
             if r and w["again"] and args.random() < 0.2:
@@ -388,6 +393,35 @@ class C08(World):
                 pt = pt.copy
                 probe("continued_on_a_copy")
                 log.append([op])
+                continue
+            if op == "readonly":
+                try:  # read-only surface of the table: must not disturb anything (judged by the checks of the next insertion)
+                    pt.to_dataframe
+                    pt.shape
+                    len(pt)
+                    pt.to_list("T")
+                    pt.pinch_idx("H_net")
+                    pt[["T", "H_net"]]
+                    pt == pt
+                except Exception as e:
+                    log.append(["readonly_exc", type(e).__name__])
+                probe("readonly_surface_used")
+                log.append([op])
+                continue
+            if op == "shift":
+                ci_ = pt.col_index
+                pop = [c for c in CURVES if not np.isnan(pt.data[:, ci_[c]]).any()]
+                if not pop:
+                    log.append([op, "skip"])
+                    continue
+                name = pop[st["col"] % len(pop)]
+                res_ = pt.shift_heat_cascade(st["dh"], name)  # shifts the column in place and returns a copy of the table
+                if st["col"] % 3 == 0:
+                    pt = res_  # carry on with the returned copy
+                Tr_, vals_ = original["cols"][name]
+                original["cols"][name] = (Tr_, vals_ + st["dh"])
+                probe("cascade_shifted_between_insertions")
+                log.append([op, name, st["dh"]])
                 continue
             if op == "populate":
                 ci_ = pt.col_index
